@@ -204,7 +204,7 @@ class Check(object):
                 self.static_rows.append(r)
                 if not r["ok"]:
                     refuted.append(dict(obligation=r["name"], clause=r["clause"], kind="static", scope=None, trace=[], model={"detail": r["detail"]},
-                                        solver="python evaluation of the source literal", full_scope=r["detail"]))
+                                        solver="python evaluation of the source literal", full_scope=r["detail"], native_cmd=r.get("native_cmd")))
         return self.report(errors, refuted, undecided, all_rows, functions, notes, n_covers_bad, solver_s, backends, assumptions)
 
     # ------------------------------------------------------------------------------------------
@@ -436,6 +436,14 @@ class Check(object):
     # ------------------------------------------------------------------------------------------
     def native_replay(self, ref):
         """Run the property's native replay harness (under /venv/bin/python) for a refuted obligation."""
+        if ref.get("native_cmd"):
+            # a concrete failing input computed by the check itself (python source run against the real code; exit 1 = reproduced)
+            try:
+                p = subprocess.run(["/venv/bin/python", "-c", ref["native_cmd"]], cwd=self.repo.root, stdout=subprocess.PIPE, stderr=subprocess.STDOUT,
+                                   universal_newlines=True, timeout=120, env=dict(os.environ, PYTHONPATH=self.repo.root))
+                return {"reproduced": p.returncode == 1, "exit": p.returncode, "output": p.stdout[-2000:], "cmd": ref["native_cmd"]}
+            except Exception as e:
+                return {"reproduced": False, "note": "native command error: %s" % e}
         harness = os.path.join(VERIF, "replay", "%s.py" % self.pid)
         if not os.path.exists(harness):
             return {"reproduced": False, "note": "no native harness for this property"}
